@@ -297,7 +297,36 @@ fn apply(real: &mut HCtx, model: &mut RCtx, act: &Act) -> (Option<String>, u32) 
     let rhs = rhs_values();
     let mut flags = 0;
     let mut eval_both = |real: &mut HCtx, model: &mut RCtx, src: String, ast: Ast| -> (Option<String>, Result<RV, RErr>) {
+        // an expression that assigns can reach the context through several entry points: the string-level and
+        // the tree-level untyped forms and the typed "empty" forms (an assignment evaluates to the empty value);
+        // all of them must leave the same context and agree on success (run on clones, compared with the primary)
+        let before = real.clone();
         let r = evalexpr::eval_with_context_mut(&src, real);
+        {
+            let after_primary = observe_vars(real);
+            let tree = evalexpr::build_operator_tree::<evalexpr::DefaultNumericTypes>(&src);
+            let mut alts: Vec<(&str, Result<(), String>, Vec<(String, String)>)> = Vec::new();
+            if let Ok(tree) = &tree {
+                let mut c = before.clone();
+                let x = tree.eval_with_context_mut(&mut c).map(|_| ()).map_err(|e| format!("{:?}", e));
+                alts.push(("Node::eval_with_context_mut", x, observe_vars(&c)));
+                let mut c = before.clone();
+                let x = tree.eval_empty_with_context_mut(&mut c).map_err(|e| format!("{:?}", e));
+                alts.push(("Node::eval_empty_with_context_mut", x, observe_vars(&c)));
+            }
+            let mut c = before.clone();
+            let x = evalexpr::eval_empty_with_context_mut(&src, &mut c).map_err(|e| format!("{:?}", e));
+            alts.push(("eval_empty_with_context_mut", x, observe_vars(&c)));
+            let primary = r.as_ref().map(|_| ()).map_err(|e| format!("{:?}", e));
+            for (name, res, vars) in alts {
+                if res != primary || vars != after_primary {
+                    return (
+                        Some(format!("`{}` through {} gives {:?} and variables {:?}; through eval_with_context_mut it gives {:?} and variables {:?}", src, name, res, vars, primary, after_primary)),
+                        model.eval(&ast, Mode::Mutable),
+                    );
+                }
+            }
+        }
         let m = model.eval(&ast, Mode::Mutable);
         if model.unclaimed {
             model.unclaimed = false;
@@ -831,7 +860,26 @@ fn context_map_forms() -> Stats {
     cm!("\"a\" => int 5, \"a\" => int 6", [("a", RV::Int(6))], [], false, "a" => int 5, "a" => int 6);
     cm!("\"a\" => int 5, \"a\" => float 2.5", [], [], true, "a" => int 5, "a" => float 2.5);
     cm!("\"a\" => \"t\", \"a\" => int 5", [], [], true, "a" => "t", "a" => int 5);
+    cm!("\"a\" => \"t\", \"a\" => \"u\"", [("a", RV::Str("u".into()))], [], false, "a" => "t", "a" => "u");
+    cm!("\"a\" => true, \"b\" => int 5, \"a\" => false", [("a", RV::Bool(false)), ("b", i5.clone())], [], false, "a" => true, "b" => int 5, "a" => false);
+    cm!("\"a\" => \"t\", \"a\" => \"u\", \"a\" => \"v\",", [("a", RV::Str("v".into()))], [], false, "a" => "t", "a" => "u", "a" => "v",);
     cm!("(empty)", [], [], false,);
+    // which error: the entry that does not fit the value the variable holds *at that point*
+    {
+        let got: Result<H<D>, EErr> = context_map! { "a" => "t", "a" => int 5 };
+        let ok = matches!(&got, Err(evalexpr::EvalexprError::ExpectedString { actual: Value::Int(5) }));
+        if !ok {
+            st.violation(Violation {
+                property: ID,
+                kind: "context-map-macro".into(),
+                input: json!({"codes": [], "history": ["context_map! { \"a\" => \"t\", \"a\" => int 5 }"]}),
+                expected: "Err(ExpectedString { actual: Int(5) }): the second entry does not fit the string the first one bound".into(),
+                actual: format!("{:?}", got.map(|c| observe_vars(&c))),
+                test: String::new(),
+            });
+        }
+        st.evaluations += 1;
+    }
     let _ = (F::<D>::new(|a| Ok(a.clone())), b);
     st
 }
@@ -902,7 +950,7 @@ pub fn run(cfg: &Cfg) -> Report {
     Report {
         property: ID,
         level: "model_checking",
-        rule: format!("explicit-state breadth-first search (stateright) from the empty context; a state is the real HashMapContext paired with the abstract map model, merged by (sorted observation of the real context, model); every transition calls the real API on a clone (set_value; `n = lit`; `n op= lit` for the 8 op-assign operators x one right-hand side per type; `n op= lit op lit` with the operator's own base operator on the right-hand side; `n = m`; `n = unbound`; clear_variables / clear_functions / clear; set_function; builtin switch; clone-and-continue) over names {{a, b}} (+ never-bound c), 15 values (ints 1, 2; floats 1.5, 1.0, 0.0, -0.0, NaN; strings `s` and `a` (the latter spells a variable name); two booleans; tuples of length 0/1/2; Empty); after every transition the return value and the complete observation (get_value of every name, both listings, call_function of every function name, builtin switch, reads through eval_with_context) are compared with the model, and the parent state must be unchanged. Closed sub-machine to closure; with op-assign inside a magnitude box (|int| <= 8, strings <= 3 bytes, closed float set): transitions leaving the box are executed and checked but not expanded; plus all unmerged histories of depth {depth} over the full action alphabet; plus 19 forms of the context_map! macro (every entry kind in every position, with and without the trailing comma, retyped duplicate keys) against the equivalent API calls; scaling families: contexts with n variables of cycling types (set, listed, looked up, retyped, cloned, cleared) and n rounds of op-assigns on one variable, n in 1..20 and up to 129 / 1..40 and up to 400. Non-trivial/distinct = unique abstract states"),
+        rule: format!("explicit-state breadth-first search (stateright) from the empty context; a state is the real HashMapContext paired with the abstract map model, merged by (sorted observation of the real context, model); every transition calls the real API on a clone (set_value; `n = lit`; `n op= lit` for the 8 op-assign operators x one right-hand side per type; `n op= lit op lit` with the operator's own base operator on the right-hand side; `n = m`; `n = unbound`; clear_variables / clear_functions / clear; set_function; builtin switch; clone-and-continue) over names {{a, b}} (+ never-bound c), 15 values (ints 1, 2; floats 1.5, 1.0, 0.0, -0.0, NaN; strings `s` and `a` (the latter spells a variable name); two booleans; tuples of length 0/1/2; Empty); after every transition the return value and the complete observation (get_value of every name, both listings, call_function of every function name, builtin switch, reads through eval_with_context) are compared with the model, and the parent state must be unchanged. Closed sub-machine to closure; with op-assign inside a magnitude box (|int| <= 8, strings <= 3 bytes, closed float set): transitions leaving the box are executed and checked but not expanded; plus all unmerged histories of depth {depth} over the full action alphabet; plus 23 forms of the context_map! macro (every entry kind in every position, with and without the trailing comma, retyped duplicate keys) against the equivalent API calls; scaling families: contexts with n variables of cycling types (set, listed, looked up, retyped, cloned, cleared) and n rounds of op-assigns on one variable, n in 1..20 and up to 129 / 1..40 and up to 400. Non-trivial/distinct = unique abstract states"),
         nontrivial_set: "counter:nontrivial-distinct",
         exhaustive: true,
         bound_completed: format!("closed machine: closure; boxed machine: {}; unmerged histories: depth {}", match cfg.tier { Tier::Quick => "depth 3", Tier::Thorough => "fixpoint of the box" }, depth),
